@@ -11,8 +11,9 @@ A configuration is a list of threads  dict(key=[app, remote, sid], cb=bool, ops=
 with ops  ["connect"] | ["send", m] | ["recv"] | ["recvnb"] | ["disconnect"].
 A schedule is a list of thread ids.  Two granularities:
   mode="line"    one entry = resume that thread for one source line
-  mode="access"  one entry = resume that thread until it has performed one more
-                 shared access (or finished / failed to take the lock)
+  mode="access"  threads park BEFORE every shared access (no tracing); one entry =
+                 that thread performs exactly its pending access (a pending lock
+                 acquisition that finds the lock taken performs nothing)
 """
 import importlib
 import sys
@@ -50,6 +51,8 @@ class Run:
         self.line_sched = []                  # the line-level schedule actually executed
         self.failed_acq = [False] * self.n
         self.errors = []
+        self.mode = "line"
+        self.end_reason = None
         self._build()
 
     # ---------------------------------------------------------------- instrumented hub
@@ -61,9 +64,11 @@ class Run:
 
         MUT = ("_add", "_del", "_discard", "_set", "_pop", "q_app", "q_pop", "q_insert", "call_")
 
-        def rec(label, arg=None):
+        def rec(label, arg=None, pre=True):
             if run.aborting:          # unwinding of blocked threads at the end of a run is not part of the execution
                 return
+            if pre and run.mode == "access":
+                run.park()            # access granularity: park BEFORE every shared access
             run.log.append((me(), label, arg))
             if any(m in label for m in MUT):      # only a change of shared state restarts the quiescence count
                 for i in range(run.n):
@@ -165,20 +170,25 @@ class Run:
 
             def acquire(s, blocking=True, timeout=-1):
                 while True:
+                    if run.mode == "access" and not run.aborting:
+                        run.park()
                     if s.owner is None:
                         s.owner = me()
-                        rec("acq")
+                        rec("acq", pre=False)
                         return True
                     if not blocking:
                         return False
                     run.failed_acq[me()] = True
-                    run.park()
+                    if run.mode != "access":
+                        run.park()
 
             def release(s):
-                if s.owner != me():
+                if run.mode == "access" and not run.aborting:
+                    run.park()
+                if s.owner != me() and not run.aborting:
                     run.errors.append("release of a lock not held by the releasing thread")
                 s.owner = None
-                rec("rel")
+                rec("rel", pre=False)
 
             def locked(s):
                 return s.owner is not None
@@ -202,9 +212,14 @@ class Run:
 
         def psleep(t):
             tid = me()
+            if run.aborting:
+                raise _Abort()
+            if run.mode == "access":
+                run.park()
             run.log.append((tid, "sleep", None))
             run.sleeps[tid] += 1
-            run.park()
+            if run.mode != "access":
+                run.park()
 
         self.psleep = psleep
 
@@ -290,7 +305,8 @@ class Run:
         try:
             if self.aborting:
                 raise _Abort()
-            sys.settrace(self._tracer())
+            if self.mode != "access":
+                sys.settrace(self._tracer())
             for i, op in enumerate(self.cfg[tid]["ops"]):
                 cur[0] = i
                 start = self.stamp
@@ -332,17 +348,7 @@ class Run:
         if self.status[tid] not in ("new", "parked"):
             return False
         self.failed_acq[tid] = False
-        if mode == "line":
-            self._resume(tid)
-            return True
-        n0 = len(self.log)
-        guard = 0
-        while self.status[tid] in ("new", "parked") and len(self.log) == n0 and not self.failed_acq[tid]:
-            self._resume(tid)
-            guard += 1
-            if guard > 400:
-                self.errors.append(f"thread {tid}: 400 lines without a shared access")
-                break
+        self._resume(tid)
         return True
 
     def quiescent(self):
@@ -352,6 +358,7 @@ class Run:
 
     def execute(self, chooser, mode="line"):
         """chooser(run, runnable) -> tid.  Runs to completion or quiescence."""
+        self.mode = mode
         old_sleep = self.hubmod.sleep
         self.hubmod.sleep = self.psleep
         ths = [threading.Thread(target=self._worker, args=(t,), daemon=True) for t in range(self.n)]
@@ -359,17 +366,25 @@ class Run:
             t.start()
         try:
             steps = 0
+            if mode == "access":      # bring every thread to its first shared access (local code only)
+                for t in range(self.n):
+                    self._resume(t)
+                self.line_sched = []
             while True:
                 r = self.runnable()
                 if not r:
+                    self.end_reason = "done"
                     break
                 if self.quiescent():
+                    self.end_reason = "quiescent"
                     break
                 if steps >= self.max_steps:
+                    self.end_reason = "budget"
                     self.errors.append("step budget exhausted")
                     break
                 tid = chooser(self, r)
                 if tid is None:
+                    self.end_reason = "schedule-exhausted"
                     break
                 self.step(tid, mode)
                 steps += 1
